@@ -11,6 +11,23 @@ The same clauses are evaluated through every entry point that counts the cycles 
 object built from the same arrays, and the GUI helper `app.funcs.calculate_rfc`), where in-between insertion is also
 produced by the library itself (`rfc(resample=dt/2)`: linear interpolation at the half steps, exact for dyadic data);
 each entry point is additionally tied to `count_cycles` on the raw samples (correspondence stream `entry==count_cycles`).
+
+Audit extensions (classes of inputs inside the quantifier that the first version did not reach):
+* spellings of a series: list / tuple / lists of ints, mixed and numpy scalars / int64, int32, float32 arrays / strided, reversed,
+  2-D-column and read-only views / a generator handed to `cycles`; `endpoints` positional or by keyword; the generator of
+  `reversals` handed straight to `count_cycles`; `find_reversals` on each kind of array;
+* scales that are not powers of two (3, 10, 1000), other units (2^+-100, 2^+-200), shifts 1/2, 2^50; corpus: 2^-540 (slope product
+  underflows: finding F8u); fixed-width integer arrays whose steps / slope products leave the type's range (repaired in
+  `reversals` by 5e8f9db; `find_reversals` still subtracts in the array's type: finding F8w); `endpoints` as numpy bool / 0, 1;
+* insertion patterns with several repeated / in-between samples per gap, long plateaus, zero-order hold and linear up-sampling;
+* more entry points (integer samples, irregular time grid, window wider than the series, options that are given but do nothing,
+  resampling to the stored times, re-binned GUI result, a database container, two series in one container, the plotting
+  wrappers of TimeSeries and TsDB);
+* histories: one TimeSeries object queried several ways, then its data replaced / overwritten in place, queried again; one
+  caller-owned ndarray handed to every function in a row, then overwritten in place, counted again;
+* transformations that are NOT exact in floating point (unit conversions such as 9.81, 1e-3, -273.15) on generic float series
+  that are free of range ties, with a rounding-error tolerance and a tie margin computed per case;
+* every call of the implementation is wrapped: an exception is a failing clause, never a harness crash.
 """
 from fractions import Fraction
 
@@ -24,26 +41,76 @@ RULE = ("seeded random dyadic series (plateaus, ties, random walks) and all word
         "for each: shift, positive scale, negation, sample repetition, in-between insertion, recount from turning points, "
         "and the same clauses (plus resampling to half the time step) through the TimeSeries.rfc()/calculate_rfc entry points "
         "with seeded time origin and dyadic time step (thorough: one seeded entry point per series longer than 6); "
+        "on the corpus, all words of length <= 4 and a seeded subset of the rest additionally: the clauses through two seeded "
+        "spellings of the series (containers / dtypes / views), heavier insertion patterns, twelve more entry points, object and "
+        "ndarray histories with in-place replacement of the data, model correspondence of the refined series with end points; "
+        "separately seeded generic float series (gaussian / decimal data) with inexact unit conversions a*x+b under a per-case "
+        "rounding tolerance, skipped unless every slope and every pair of candidate ranges is separated by 100x that tolerance; "
         "non-trivial = original series has at least one cycle; distinct by series")
+
+
+_FR = {}
+
+
+def fr_(v):
+    """exact Fraction of a float (memoised: tables repeat few values)"""
+    v = float(v)
+    r = _FR.get(v)
+    if r is None:
+        if len(_FR) > 200000:
+            _FR.clear()
+        r = _FR[v] = Fraction(v)
+    return r
 
 
 def table(x, ep=False):
     from qats.fatigue.rainflow import count_cycles
     c = count_cycles(np.array([float(v) for v in x]), endpoints=ep)
-    return sorted(tuple(Fraction(float(v)) for v in row) for row in c)
+    return sorted(tuple(fr_(v) for v in row) for row in c.tolist())
+
+
+def exactbits(vals, bits=53, emax=900):
+    """every value, and the sum / difference / mean of any two values, is exact in a binary format with `bits` significant bits"""
+    vals = [v if isinstance(v, Fraction) else Fraction(v) for v in vals]
+    den = 1
+    for v in vals:
+        d = v.denominator
+        if d & (d - 1):
+            return False
+        if d > den:
+            den = d
+    ints = [abs(v.numerator) * (den // v.denominator) for v in vals if v.numerator]
+    if not ints:
+        return True
+    low = min(n & -n for n in ints)         # largest 2^k (in units of 1/den) dividing every value
+    top = max(ints)
+    return 4 * top < low << bits and den < low << emax and top < den << emax
 
 
 def exact64(vals):
     """every value, and the sum / difference / mean of any two values, is exact in binary64"""
-    vals = [Fraction(v) for v in vals]
-    if any(v.denominator & (v.denominator - 1) for v in vals):
-        return False
-    nz = [abs(v) for v in vals if v != 0]
-    if not nz:
-        return True
-    unit = min(Fraction(v.numerator & -v.numerator, v.denominator) for v in nz)   # largest 2^k dividing every value
-    top = max(nz)
-    return 4 * top / unit < 2 ** 53 and Fraction(1, 2 ** 900) < unit and top < 2 ** 900
+    return exactbits(vals, 53, 900)
+
+
+def frac(s):
+    """'3/4', '-5', '2^-540', '-2^200' -> Fraction (corpus files write huge / tiny powers of two as 2^k)"""
+    s = str(s).strip()
+    if "^" in s:
+        base, ex = s.split("^")
+        return Fraction(base) ** int(ex) if not base.startswith("-") else -(Fraction(base[1:]) ** int(ex))
+    return Fraction(s)
+
+
+def fl(vals):
+    return [float(v) for v in vals]
+
+
+def call(f, *a, **k):
+    """result of the implementation, or 'err:<Exception>' (an exception is a value to be compared, never a harness crash)"""
+    try:
+        return f(*a, **k)
+    except Exception as e:
+        return "err:" + type(e).__name__
 
 
 def is_f8b_shape(seq):
@@ -56,8 +123,13 @@ def is_f8b_shape(seq):
     from qats.signal import find_reversals
     x = [Fraction(v) for v in seq]
     n = len(x)
-    fr, idx = find_reversals(np.array([float(v) for v in x]))
-    idx = [int(i) for i in idx]
+    try:
+        fr, idx = find_reversals(np.array([float(v) for v in x]))
+        idx = [int(i) for i in idx]
+        if any(i < 0 or i >= n for i in idx):
+            return False
+    except Exception:
+        return False
     # true turning plateaus: maximal runs of equal samples whose neighbours lie strictly on the same side
     runs, i = [], 0
     while i < n:
@@ -87,7 +159,7 @@ def is_f8b_shape(seq):
 
 # ---- entry points that count the cycles of a time series object ----------------------------------------------------
 def _norm(c):
-    return sorted(tuple(Fraction(float(v)) for v in row) for row in c)
+    return sorted(tuple(fr_(v) for v in row) for row in np.asarray(c).tolist())
 
 
 def _mkts(x, t0, dt, name="signal"):
@@ -135,19 +207,184 @@ ENTRIES = {
 }
 
 
-def entry(name, x, t0, dt):
-    """table of the entry point, or 'err:<Exception>' (e.g. calculate_rfc cannot unpack an empty cycle table)"""
+# ---- further entry points (evaluated on the corpus, the short words and a seeded subset) -----------------------------------------
+def _mkts_int(x, t0, dt, name="signal"):
+    """integer-valued samples / times are handed to TimeSeries as int64 arrays (float arrays otherwise)"""
+    from qats import TimeSeries
+    xs = [Fraction(v) for v in x]
+    tt = [Fraction(t0) + Fraction(dt) * i for i in range(len(xs))]
+
+    def arr(vals):
+        if all(v.denominator == 1 and abs(v) < 2 ** 62 for v in vals):
+            return np.array([int(v) for v in vals], dtype=np.int64)
+        return np.array(fl(vals))
+    return TimeSeries(name, arr(tt), arr(xs))
+
+
+def _e_int(x, t0, dt):
+    return _norm(_mkts_int(x, t0, dt).rfc())
+
+
+def _e_irregular(x, t0, dt):
+    from qats import TimeSeries
+    xa = np.array(fl(x))
+    steps = [float(dt) * ((i * i) % 3 + 1) for i in range(max(xa.size - 1, 0))]
+    ta = float(t0) + np.concatenate(([0.0], np.cumsum(steps))) if xa.size else np.array([])
+    return _norm(TimeSeries("signal", ta, xa).rfc())
+
+
+def _e_wide(x, t0, dt):
+    ts, ta, _ = _mkts(x, t0, dt)
+    return _norm(ts.rfc(twin=[float(ta[0]) - float(dt), float(ta[-1]) + 3 * float(dt)]))
+
+
+def _same_samples(ts, xa, opts):
+    """the options leave the samples as they are (otherwise the entry is no spelling of `count the series`: skipped)"""
+    _, xr = ts.get(**opts)
+    return np.asarray(xr).shape == xa.shape and np.array_equal(np.asarray(xr), xa)
+
+
+def _e_noop(x, t0, dt):
+    """options that are given but do nothing: resampling to the stored step, no taper, one-sample smoothing window"""
+    ts, ta, xa = _mkts(x, t0, dt)
+    opts = dict(twin=None, resample=float(dt), taperfrac=0.0, window_len=1, filterargs=None)
+    if not _same_samples(ts, xa, opts):
+        return None
+    return _norm(ts.rfc(**opts))
+
+
+def _e_times(x, t0, dt):
+    """resampling to the stored time array (as ndarray for even, as list for odd lengths)"""
+    ts, ta, xa = _mkts(x, t0, dt)
+    opts = dict(resample=ta.copy() if xa.size % 2 == 0 else [float(v) for v in ta])
+    if not _same_samples(ts, xa, opts):
+        return None
+    return _norm(ts.rfc(**opts))
+
+
+def _rc(r, c):
+    return sorted((Fraction(float(a)), Fraction(float(b))) for a, b in zip(r, c))
+
+
+def _e_app_bins(k):
+    def f(x, t0, dt):
+        from qats.app.funcs import calculate_rfc
+        ts, ta, _ = _mkts(x, t0, dt)
+        r, c = calculate_rfc({"signal": ts}, (float(ta[0]), float(ta[-1])), None, k)["signal"]
+        return _rc(r, c)
+    return f
+
+
+def _mkdb(x, t0, dt):
+    """a database holding the series between two other series"""
+    from qats import TimeSeries, TsDB
+    ts, ta, xa = _mkts(x, t0, dt)
+    db = TsDB()
+    db.add(TimeSeries("aaa", ta, xa[::-1].copy()))
+    db.add(ts)
+    db.add(TimeSeries("zzz", ta, 2.0 * xa))
+    return db, ta
+
+
+def _e_db_get(x, t0, dt):
+    db, _ = _mkdb(x, t0, dt)
+    return _norm(db.get(name="signal").rfc())
+
+
+def _e_db_app(x, t0, dt):
+    """what the GUI does: container from the database, then the helper"""
+    from qats.app.funcs import calculate_rfc
+    db, ta = _mkdb(x, t0, dt)
+    out = calculate_rfc(db.getm(names=["zzz", "signal"], store=False), (float(ta[0]), float(ta[-1])), None, None)
+    r, c = out["signal"]
+    return _rc(r, c)
+
+
+def _scatter(num, label):
+    """(range, mean, count) rows read back from the scatter plot labelled `label` of figure `num`"""
+    import matplotlib.pyplot as plt
     try:
-        return ENTRIES[name](x, t0, dt)
+        ax = plt.figure(num).gca()
+        col = [c for c in ax.collections if c.get_label() == label]
+        if len(col) != 1:
+            raise LookupError("no scatter plot labelled %r" % label)
+        off, sz = np.asarray(col[0].get_offsets(), dtype=float), np.asarray(col[0].get_sizes(), dtype=float)
+        return sorted((Fraction(float(o[1])), Fraction(float(o[0])), Fraction(float(s)) / 2) for o, s in zip(off, sz))
+    finally:
+        plt.close(num)
+
+
+def _e_plot_ts(x, t0, dt):
+    ts, _, _ = _mkts(x, t0, dt)
+    try:
+        ts.plot_cycle_rangemean(show=False, num=9931)
+    except Exception:
+        import matplotlib.pyplot as plt
+        plt.close(9931)
+        raise
+    return _scatter(9931, "signal")
+
+
+def _e_plot_db(x, t0, dt):
+    db, _ = _mkdb(x, t0, dt)
+    try:
+        db.plot_cycle_rangemean(names=["signal", "aaa"], show=False, num=9932)
+    except Exception:
+        import matplotlib.pyplot as plt
+        plt.close(9932)
+        raise
+    return _scatter(9932, "signal")
+
+
+BINS = {"app.funcs.calculate_rfc(nbins=1)": 1, "app.funcs.calculate_rfc(nbins=3)": 3, "app.funcs.calculate_rfc(nbins=8)": 8}
+ENTRIES2 = {
+    "TimeSeries.rfc() of integer sample / time arrays": _e_int,
+    "TimeSeries.rfc() on an irregular time grid": _e_irregular,
+    "TimeSeries.rfc(twin=[wider than the series])": _e_wide,
+    "TimeSeries.rfc(resample=dt, taperfrac=0.0, window_len=1, filterargs=None, twin=None)": _e_noop,
+    "TimeSeries.rfc(resample=<the stored times>)": _e_times,
+    "TsDB.get(name).rfc()": _e_db_get,
+    "app.funcs.calculate_rfc(TsDB.getm(names, store=False), nbins=None)": _e_db_app,
+}
+ENTRIES2.update({k: _e_app_bins(v) for k, v in BINS.items()})
+PLOTS = {
+    "TimeSeries.plot_cycle_rangemean(show=False) scatter data": _e_plot_ts,
+    "TsDB.plot_cycle_rangemean(names, show=False) scatter data": _e_plot_db,
+}
+ALL_ENTRIES = dict(ENTRIES)
+ALL_ENTRIES.update(ENTRIES2)
+ALL_ENTRIES.update(PLOTS)
+# entry points that cannot unpack an empty cycle table (recorded observation, DESIGN 9.4): the tie is not evaluated there
+EMPTY_RAISES = tuple(n for n in ALL_ENTRIES if n.startswith("app.") or n.startswith("TsDB.plot"))
+
+
+def entry(name, x, t0, dt):
+    """table of the entry point, 'err:<Exception>' (e.g. calculate_rfc cannot unpack an empty cycle table), or None when the
+    entry point's options do not leave the samples as they are (not applicable)"""
+    try:
+        return ALL_ENTRIES[name](x, t0, dt)
     except Exception as e:
         return "err:" + type(e).__name__
 
 
 def project(name, tab):
     """what the entry point reports of a (range, mean, count) table"""
+    if isinstance(tab, str):
+        return tab
+    if name in BINS:
+        if not tab:
+            return "err:ValueError"
+        from qats.fatigue.rainflow import rebin
+        out = call(rebin, np.array([[float(v) for v in row] for row in sorted(tab)]), binby="range", n=BINS[name])
+        return out if isinstance(out, str) else _rc(out[:, 0], out[:, 2])
     if name.startswith("app."):
         return sorted((r, c) for r, _, c in tab)
     return sorted(tab)
+
+
+def pow2(a):
+    a = abs(Fraction(a))
+    return a > 0 and a.numerator & (a.numerator - 1) == 0 and a.denominator & (a.denominator - 1) == 0
 
 
 def transform(tab, a, b):
@@ -156,65 +393,524 @@ def transform(tab, a, b):
     return sorted((abs(a) * row[0], a * row[1] + b, row[2]) if len(row) == 3 else (abs(a) * row[0], row[1]) for row in tab)
 
 
-def resampled(x, t0, dt):
-    """`TimeSeries.rfc(resample=dt/2)`; None unless the library's resampled series is exactly the original samples with the
-    exact midpoints inserted (so that the clause 'inserting in-between samples changes nothing' applies literally)"""
+def resampled(x, t0, dt, m=2):
+    """`TimeSeries.rfc(resample=dt/m)`; None unless the library's resampled series is exactly the original samples with the
+    in-between points inserted, each weakly between its two neighbouring samples (so that the clause 'inserting in-between samples changes nothing' applies literally)"""
     ts, ta, xa = _mkts(x, t0, dt)
-    h = float(Fraction(dt) / 2)
+    h = float(Fraction(dt) / m)
     _, xr = ts.get(resample=h)
-    if xr.size != 2 * xa.size - 1 or not np.array_equal(xr[::2], xa) or not np.array_equal(xr[1::2], (xa[:-1] + xa[1:]) / 2):
+    if xr.size != m * (xa.size - 1) + 1 or not np.array_equal(xr[::m], xa):
         return None
+    for k in range(1, m):
+        lo, hi = np.minimum(xa[:-1], xa[1:]), np.maximum(xa[:-1], xa[1:])
+        if not (np.all(lo <= xr[k::m]) and np.all(xr[k::m] <= hi)):
+            return None
     return _norm(ts.rfc(resample=h))
 
 
+_VAR = {}
+
+
 def show(tab):
-    return tab if isinstance(tab, str) else [list(map(str, r)) for r in tab]
+    return tab if isinstance(tab, str) or tab is None else [list(map(str, r)) for r in tab]
 
 
-def entry_clauses(name, s, t0, dt, a, b, t2, report, skip=None):
+def entry_clauses(name, s, t0, dt, a, b, t2, report, skip=None, factors=(2, 4)):
     """the property's clauses evaluated through one entry point; `report(oracle, input, expected, observed, clause)`"""
     common = dict(series=[str(v) for v in s], entry=name, t0=str(t0), dt=str(dt))
-    base = entry(name, s, t0, dt)
+    if _VAR.get("s") is not s:          # float variants of this case are shared by all its entry points
+        _VAR.clear()
+        _VAR["s"] = s
+
+    def var(aa, bb):
+        key = (aa, bb)
+        if key not in _VAR:
+            _VAR[key] = fl(s) if (aa, bb) == (1, 0) else fl([aa * v + bb for v in s])
+        return _VAR[key]
+    if t2 is not None and _VAR.get("t2src") is not t2:
+        _VAR["t2src"], _VAR["t2"] = t2, fl(t2)
+    base = entry(name, var(Fraction(1), Fraction(0)), t0, dt)
+    if base is None:
+        if skip is not None:
+            skip()
+        return None
+    if name in BINS and not pow2(a):
+        a = Fraction(1 if a > 0 else -1)       # bin edges come from a division: only powers of two scale them exactly
     for aa, bb in ((a, b), (Fraction(-1), Fraction(0))):
-        got = entry(name, [aa * v + bb for v in s], t0, dt)
+        got = entry(name, var(aa, bb), t0, dt)
         exp = transform(base, aa, bb)
-        if got != exp:
+        if got is not None and got != exp:
             report("%s of a*x+b: ranges |a|*r, means a*m+b, same counts (negation mirrors the means)" % name,
                    dict(common, a=str(aa), b=str(bb)), show(exp), show(got), "entry-affine")
     if t2 is not None:
-        got = entry(name, t2, t0, dt)
-        if got != base:
+        got = entry(name, _VAR["t2"], t0, dt)
+        if got is not None and got != base:
             report("%s: inserting repeated / in-between samples changes nothing" % name,
                    dict(common, refined=[str(v) for v in t2]), show(base), show(got), "entry-refine")
     if name == "TimeSeries.rfc()" and len(s) >= 2:
-        try:
-            got = resampled(s, t0, dt)
-        except Exception as e:
-            got = "err:" + type(e).__name__
-        if got is None:
-            if skip is not None:
-                skip()
-        elif got != base:
-            report("TimeSeries.rfc(resample=dt/2) (exact midpoints inserted between consecutive samples) changes nothing",
-                   dict(common, resample="dt/2"), show(base), show(got), "entry-resample")
+        for m in factors:
+            try:
+                got = resampled(var(Fraction(1), Fraction(0)), t0, dt, m)
+            except Exception as e:
+                got = "err:" + type(e).__name__
+            if got is None:
+                if skip is not None:
+                    skip()
+            elif got != base:
+                report("TimeSeries.rfc(resample=dt/%d) (exact in-between points inserted between consecutive samples) "
+                       "changes nothing" % m, dict(common, resample="dt/%d" % m), show(base), show(got), "entry-resample")
+    if name == "app.funcs.calculate_rfc(nbins=None)" and not isinstance(base, str):
+        # several series in one container: each is counted for itself
+        got = call(_container, s, [a * v + b for v in s], t0, dt)
+        exp = (base, transform(base, a, b))
+        if got != exp:
+            report("calculate_rfc on a container {x, a*x+b}: every series gets its own cycles (ranges |a|*r, same counts)",
+                   dict(common, a=str(a), b=str(b), container=2), [show(e) for e in exp],
+                   got if isinstance(got, str) else [show(g) for g in got], "entry-container")
     return base
+
+
+def _container(s, t, t0, dt):
+    from qats.app.funcs import calculate_rfc
+    ts1, ta, _ = _mkts(s, t0, dt, "x")
+    ts2, _, _ = _mkts(t, t0, dt, "y")
+    out = {}
+    for k in (None, None):      # the same container twice (second use)
+        out = calculate_rfc({"x": ts1, "y": ts2}, (float(ta[0]), float(ta[-1])), None, k)
+    res = []
+    for key in ("x", "y"):
+        try:
+            res.append(_rc(*out[key]))
+        except Exception as e:
+            res.append("err:" + type(e).__name__)
+    return tuple(res)
+
+
+# ---- spellings of one series ------------------------------------------------------------------------------------------------------
+def _isint(vals):
+    return all(Fraction(v).denominator == 1 for v in vals)
+
+
+def _spread(vals):
+    return max(vals) - min(vals) if len(vals) else 0
+
+
+def spell(name, vals):
+    """the series as the named kind of object; None when that kind cannot hold the values (and their differences, sums and slope
+    products) exactly"""
+    vals = [Fraction(v) for v in vals]
+    f = fl(vals)
+    n = len(f)
+    if name == "ndarray float64":
+        return np.array(f)
+    if name == "list of float":
+        return list(f)
+    if name == "tuple of float":
+        return tuple(f)
+    if name == "list of numpy float64 scalars":
+        return list(np.array(f))
+    if name == "list of int":
+        return [int(v) for v in vals] if _isint(vals) else None
+    if name == "list mixing int and float":
+        return [int(v) if v.denominator == 1 and i % 2 == 0 else float(v) for i, v in enumerate(vals)]
+    if name in INT_DTYPES:
+        # fixed-width integers of every width (the values themselves must fit; steps may exceed the type's range, where a
+        # subtraction in that type would wrap around)
+        info = np.iinfo(INT_DTYPES[name])
+        ok = _isint(vals) and all(info.min <= v <= info.max for v in vals)
+        return np.array([int(v) for v in vals], dtype=INT_DTYPES[name]) if ok else None
+    if name == "ndarray float32":
+        return np.array(f, dtype=np.float32) if exactbits(vals, 24, 60) else None     # (slope products stay normal in float32)
+    if name == "strided view of a float64 ndarray":
+        buf = np.full(2 * n, 777.25)
+        buf[::2] = f
+        return buf[::2]
+    if name == "reversed view of a float64 ndarray":
+        return np.array(f[::-1])[::-1]
+    if name == "column of a 2-D float64 ndarray":
+        return np.column_stack([np.full(n, -3.5), np.array(f), np.arange(n, dtype=float)])[:, 1]
+    if name == "read-only float64 ndarray":
+        arr = np.array(f)
+        arr.flags.writeable = False
+        return arr
+    raise KeyError(name)
+
+
+INT_DTYPES = {"ndarray int64": np.int64, "ndarray int32": np.int32, "ndarray int16": np.int16, "ndarray int8": np.int8,
+              "ndarray uint8": np.uint8, "ndarray uint16": np.uint16, "ndarray uint64": np.uint64,
+              "ndarray int32, large steps": np.int32}
+ARRAY_SPELLINGS = ["ndarray int64", "ndarray int32", "ndarray int16", "ndarray int8", "ndarray uint8", "ndarray uint16",
+                   "ndarray uint64", "ndarray float32", "strided view of a float64 ndarray",
+                   "reversed view of a float64 ndarray", "column of a 2-D float64 ndarray", "read-only float64 ndarray"]
+SPELLINGS = ["list of float", "tuple of float", "list of numpy float64 scalars", "list of int", "list mixing int and float",
+             "cycles(generator)"] + ARRAY_SPELLINGS
+HOWS = ["kw", "pos", "kw, numpy bool", "kw, int 0/1"]
+
+
+def _ep(ep, how):
+    return (np.True_ if ep else np.False_) if how == "kw, numpy bool" else int(ep) if how == "kw, int 0/1" else ep
+
+
+def diff_wraps(vals, spelling):
+    """some step of the series is not representable in the integer type of the array (np.diff wraps around there)"""
+    if spelling not in INT_DTYPES:
+        return False
+    info = np.iinfo(INT_DTYPES[spelling])
+    v = [int(Fraction(x)) for x in vals]
+    return any(not (info.min <= q - p <= info.max) for p, q in zip(v, v[1:]))
+
+
+def is_f8w(f):
+    """narrow matcher of finding F8w: `signal.find_reversals` takes `np.diff(x) < 0` in the array's own integer type; the failing
+    recount clause is on an integer array one of whose steps is not representable in that type (always the case for a
+    descending step of an unsigned array), and on the float64 array of the same samples the clause holds (or has shape F8b)"""
+    try:
+        inp = f["input"]
+        if f.get("clause") not in ("recount-find_reversals", "spelling-find_reversals") or inp.get("kind") != "spelling":
+            return False
+        s = [frac(v) for v in inp["series"]]
+        if not diff_wraps(s, inp.get("spelling")):
+            return False
+        from qats.signal import find_reversals
+        fr = find_reversals(np.array(fl(s)))[0]
+        return len(fr) < 2 or table(fr, True) == table(s) or is_f8b_shape(inp["series"])
+    except Exception:
+        return False
+
+
+def count_via(sp, vals, ep=False, how="kw"):
+    """cycle table of the series handed over as spelling `sp`, `endpoints` passed by keyword / position / as numpy bool / as 0, 1;
+    None = not applicable"""
+    from qats.fatigue.rainflow import count_cycles, cycles
+    e = _ep(ep, how)
+    if sp == "cycles(generator)":
+        gen = (float(v) for v in vals)
+        full, half = cycles(gen, e) if how == "pos" else cycles(gen, endpoints=e)
+        return sorted([(fr_(r), fr_(m), Fraction(1)) for r, m in full] + [(fr_(r), fr_(m), Fraction(1, 2)) for r, m in half])
+    obj = spell(sp, vals)
+    if obj is None:
+        return None
+    return _norm(count_cycles(obj, e) if how == "pos" else count_cycles(obj, endpoints=e))
+
+
+def f8w_present():
+    """probe of finding F8w (find_reversals subtracts in the array's integer type): while it is present the seeded integer-array
+    cases with a wrapping step skip the find_reversals clause (the corpus inputs report it), once it is repaired they
+    are evaluated like every other case"""
+    from qats.signal import find_reversals
+    try:
+        return [int(v) for v in find_reversals(np.array([0, 2, 1, 3, 0], dtype=np.uint8))[0]] != [2, 1, 3]
+    except Exception:
+        return True
+
+
+def spelling_clauses(sp, how, s, a, b, t2, report, skip_wrap=False):
+    """the clauses with the (transformed) series handed over as another kind of object; the reference is the table of the float64
+    ndarray of the original series, i.e. the same series in another container is the identity instance of the shift clause"""
+    from qats.signal import find_reversals
+    from qats.fatigue.rainflow import count_cycles, reversals
+    inp = dict(kind="spelling", series=[str(v) for v in s], spelling=sp, endpoints_as=how, a=str(a), b=str(b))
+    base = call(table, s)
+    if isinstance(base, str):
+        return
+    for aa, bb, clause, text in ((Fraction(1), Fraction(0), "spelling-identity", "the same series"),
+                                 (a, b, "spelling-affine", "a*x+b"), (Fraction(-1), Fraction(0), "spelling-affine", "-x")):
+        got = call(count_via, sp, [aa * v + bb for v in s], False, how)
+        exp = transform(base, aa, bb)
+        if got is not None and got != exp:
+            report("count_cycles of %s given as %s: ranges |a|*r, means a*m+b, same counts as for the float64 ndarray of x" % (text, sp),
+                   dict(inp, a=str(aa), b=str(bb)), show(exp), show(got), clause)
+    if t2 is not None:
+        for ep in (False, True):
+            exp = call(table, s, ep)
+            got = call(count_via, sp, t2, ep, how)
+            if got is not None and got != exp:
+                report("inserting repeated / in-between samples changes nothing (refined series given as %s)" % sp,
+                       dict(inp, refined=[str(v) for v in t2], endpoints=ep), show(exp), show(got), "spelling-refine")
+    rv = call(lambda: list(reversals(fl(s))))
+    if isinstance(rv, str) or len(rv) < 2 or sp == "cycles(generator)":
+        return
+    obj = spell(sp, s)
+    if obj is None:
+        return
+    e = _ep(True, how)
+    got = call(lambda: _norm(count_cycles(reversals(obj), e) if how == "pos" else count_cycles(reversals(obj), endpoints=e)))
+    if got != base:
+        report("count_cycles(reversals(x), endpoints=True) == count_cycles(x) (x given as %s, the generator handed on directly)" % sp,
+               inp, show(base), show(got), "spelling-recount-reversals")
+    if isinstance(obj, np.ndarray) and not (skip_wrap and diff_wraps(s, sp)):
+        fr = call(lambda: find_reversals(obj)[0])
+        if isinstance(fr, str):
+            report("find_reversals must not raise (x given as %s)" % sp, inp, "turning points", fr, "spelling-find_reversals")
+        elif len(fr) >= 2:
+            got = call(lambda: _norm(count_cycles(fr, endpoints=e)))
+            if got != base:
+                report("count_cycles(find_reversals(x)[0], endpoints=True) == count_cycles(x)", inp, show(base), show(got),
+                       "recount-find_reversals")
+        else:
+            report("find_reversals(x) finds the turning points of x given as %s (reversals(x) yields %d)" % (sp, len(rv)), inp,
+                   [str(v) for v in rv], [str(v) for v in fr], "spelling-find_reversals")
+
+
+# ---- histories ----------------------------------------------------------------------------------------------------------------------
+def array_history(s, a, b, report):
+    """one ndarray owned by the caller is handed to every function in a row, overwritten in place, and counted again"""
+    from qats.signal import find_reversals
+    from qats.fatigue.rainflow import count_cycles, cycles, reversals
+    inp = dict(kind="array-history", series=[str(v) for v in s], a=str(a), b=str(b))
+    base = call(table, s)
+    if isinstance(base, str):
+        return
+    xa = np.array(fl(s))
+
+    def steps():
+        out = [_norm(count_cycles(xa))]
+        find_reversals(xa)
+        list(reversals(xa, endpoints=True))
+        cycles(xa)
+        count_cycles(xa, endpoints=True)
+        call(count_cycles, xa[:1])                       # a rejected request (a single sample) in between
+        out.append(_norm(count_cycles(xa)))
+        out.append(_norm(count_cycles(xa, endpoints=True)))
+        xa[:] = fl([a * v + b for v in s])               # the caller overwrites the data in place
+        out.append(_norm(count_cycles(xa)))
+        fr, _ = find_reversals(xa)
+        out.append(list(fr))
+        return out
+    got = call(steps)
+    if isinstance(got, str):
+        report("a history of calls on one ndarray must not raise", inp, "tables", got, "array-history")
+        return
+    t = [a * v + b for v in s]
+    exp = [base, base, call(table, s, True), transform(base, a, b)]
+    if got[:4] != exp:
+        report("one ndarray counted, searched for turning points, counted with end points, counted again (same table: shift by 0), "
+               "overwritten in place with a*x+b and counted again (ranges |a|*r, means a*m+b, same counts)", inp,
+               [show(e) for e in exp], [show(g) for g in got[:4]], "array-history")
+    fresh = call(lambda: list(find_reversals(np.array(fl(t)))[0]))
+    if got[4] != fresh:
+        report("find_reversals of an ndarray overwritten in place == find_reversals of a fresh ndarray of the same samples", inp,
+               str(fresh), str(got[4]), "array-history")
+
+
+def ts_history(s, t0, dt, a, b, way, report):
+    """one TimeSeries object: counted, counted on a sub-window, queried, counted with resampling, counted again; then its data are
+    replaced (`way`: a new array assigned to `.x` / the stored array overwritten in place) and it is counted again"""
+    inp = dict(kind="ts-history", series=[str(v) for v in s], t0=str(t0), dt=str(dt), a=str(a), b=str(b), way=way)
+    t = [a * v + b for v in s]
+    n = len(s)
+    i, j = n // 4, n - 1 - n // 4
+
+    def fresh(vals, **kw):
+        return _norm(_mkts(vals, t0, dt)[0].rfc(**kw))
+
+    def steps():
+        ts, ta, xa = _mkts(s, t0, dt)
+        sub = (float(ta[i]), float(ta[j]))
+        out = [_norm(ts.rfc()), _norm(ts.rfc(twin=sub))]
+        ts.get(twin=sub)
+        ts.rfc(resample=float(Fraction(dt) / 2))
+        out.append(_norm(ts.rfc()))
+        if way == "assign":
+            ts.x = np.array(fl(t))
+        else:
+            ts.x[:] = fl(t)
+        out += [_norm(ts.rfc()), _norm(ts.rfc(twin=sub))]
+        return out, sub
+    res = call(steps)
+    if isinstance(res, str):
+        report("a history of queries on one TimeSeries object must not raise", inp, "tables", res, "ts-history")
+        return
+    got, sub = res
+    b0, b1 = call(fresh, s), call(fresh, s, twin=sub)
+    exp = [b0, b1, b0, transform(b0, a, b), transform(b1, a, b)]
+    if got != exp:
+        report("one TimeSeries object: rfc(), rfc(twin=sub-window), get(), rfc(resample), rfc() give what a fresh object gives "
+               "(shift by 0); after its data are replaced by a*x+b, rfc() and rfc(twin=sub-window) give ranges |a|*r, means "
+               "a*m+b, same counts", inp, [show(e) for e in exp], [show(g) for g in got], "ts-history")
+
+
+# ---- transformations that are not exact in floating point, on series free of range ties ---------------------------------------
+def _points(xs):
+    """first sample, turning points, last sample (own reference, plateaus collapsed)"""
+    u = [xs[0]]
+    for v in xs[1:]:
+        if v != u[-1]:
+            u.append(v)
+    return [u[k] for k in range(len(u)) if k in (0, len(u) - 1) or (u[k] - u[k - 1]) * (u[k + 1] - u[k]) < 0]
+
+
+def tie_gap(xs):
+    """the smallest margin by which a decision of the counting could flip: the smallest non-zero slope, and the smallest gap
+    between two different candidate ranges |p_i - p_j| of points that can be counted"""
+    steps = [abs(q - p) for p, q in zip(xs, xs[1:]) if q != p]
+    pts = _points(xs)
+    rng_ = sorted(abs(p - q) for k, p in enumerate(pts) for q in pts[k + 1:])
+    gaps = [v - u for u, v in zip(rng_, rng_[1:])]
+    return min(steps + gaps + rng_[:1]) if steps else 0.0
+
+
+def generic_clauses(xs, a, b, sp, ep, t2, report, skip):
+    """affine clause under a rounding tolerance; refinement and recount clauses exactly (no arithmetic is involved in them)"""
+    from qats.fatigue.rainflow import count_cycles, reversals
+    eps = 2.0 ** -52
+    inp = dict(kind="generic", series=[float(v).hex() for v in xs], a=float(a).hex(), b=float(b).hex(), spelling=sp, endpoints=ep,
+               refined=[float(v).hex() for v in t2], readable=dict(series=[repr(v) for v in xs], a=a, b=b))
+
+    def cnt(vals, e):
+        obj = np.array(vals) if sp == "ndarray" else list(vals)
+        return [tuple(float(v) for v in row) for row in count_cycles(obj, endpoints=e)]
+    base = call(cnt, xs, ep)
+    if isinstance(base, str):
+        report("count_cycles must not raise", inp, "table", base, "generic-base")
+        return
+    # refinement / recount: exact
+    for e in (False, True):
+        b0, got = call(cnt, xs, e), call(cnt, t2, e)
+        if got != b0:
+            report("inserting repeated / in-between samples changes nothing (generic float series)", dict(inp, endpoints=e),
+                   str(b0), str(got), "generic-refine")
+    rv = call(lambda: [float(v) for v in reversals(list(xs))])
+    if not isinstance(rv, str) and len(rv) >= 2:
+        b0, got = call(cnt, xs, False), call(cnt, rv, True)
+        if got != b0:
+            report("count_cycles(reversals(x), endpoints=True) == count_cycles(x) (generic float series)", inp, str(b0), str(got),
+                   "generic-recount")
+    # affine, with tolerance
+    err = eps * (abs(a) * max(abs(v) for v in xs) + abs(b))        # bound of the rounding error of one transformed sample
+    g = tie_gap(xs)
+    if not abs(a) * g > 100 * err:
+        skip()
+        return
+    tol = 8 * err
+    got = call(cnt, [a * v + b for v in xs], ep)
+    exp = sorted((abs(a) * r, a * m + b, c) for r, m, c in base)
+    ok = not isinstance(got, str) and len(got) == len(exp) and all(
+        abs(g_[0] - e_[0]) <= tol and abs(g_[1] - e_[1]) <= tol and g_[2] == e_[2] for g_, e_ in zip(sorted(got), exp))
+    if not ok:
+        report("count(a*x+b) for an inexact unit conversion of a series free of range ties: ranges |a|*r, means a*m+b within the "
+               "rounding tolerance 8*eps*(|a|*max|x|+|b|), same counts", inp, str(exp), str(got), "generic-affine", tol=tol)
+
+
+def gen_generic(rng):
+    n = rng.choice([3, 4, 5, 6, 8, 12, 20, 40])
+    kind = rng.random()
+    if kind < 0.5:
+        xs = [rng.gauss(0.0, 1.0) for _ in range(n)]
+    elif kind < 0.8:
+        xs = [round(rng.gauss(10.0, 25.0), rng.choice([1, 2, 3])) for _ in range(n)]       # logged decimal data
+    else:
+        x, xs = rng.uniform(-1, 1), []
+        for _ in range(n):
+            x += rng.uniform(-1, 1)
+            xs.append(x)
+    a = rng.choice([9.81, 1e-3, 1e-3 / 7.3, 1e6, -0.45359237, 1.0 / 3.0, 4.4482216, 6.894757e-3, -1.0, 1.0, 0.1, -1e3])
+    b = rng.choice([0.0, 0.0, 0.1, -273.15, 101325.0, 1e5 / 3.0, -0.7, 1.0])
+    t2 = []
+    for k, v in enumerate(xs):
+        t2.append(v)
+        for _ in range(rng.choice([0, 0, 1, 1, 2, 3])):
+            if rng.random() < 0.5 or k + 1 == len(xs):
+                t2.append(t2[-1])
+            else:
+                w = xs[k + 1]
+                lo, hi = min(t2[-1], w), max(t2[-1], w)
+                t2.append(min(max(t2[-1] + rng.random() * (w - t2[-1]), lo), hi))        # weakly between, monotone towards w
+    return xs, a, b, t2
+
+
+def heavy_refine(rng, s):
+    """several insertions per gap: runs of repeated samples, monotone chains of in-between points, zero-order hold, up-sampling"""
+    kind = rng.random()
+    if kind < 0.15:
+        m = rng.choice([2, 3, 5])
+        return [v for v in s for _ in range(m)]                                               # np.repeat(x, m)
+    if kind < 0.3:
+        m = rng.choice([2, 4, 8])
+        out = []
+        for v, w in zip(s, s[1:]):
+            out += [v + Fraction(k, m) * (w - v) for k in range(m)]                           # linear up-sampling by m
+        return out + [s[-1]]
+    out = []
+    for i, v in enumerate(s):
+        out += [v] * (1 + rng.choice([0, 0, 0, 1, 2, 3, 12]))
+        if i + 1 < len(s):
+            w = s[i + 1]
+            lams = sorted(Fraction(rng.randint(0, 8), 8) for _ in range(rng.choice([0, 0, 1, 2, 3, 5])))
+            for lam in lams:
+                out += [v + lam * (w - v)] * rng.choice([1, 1, 2])
+    return out
+
+
+def underflow_shape(vals):
+    """finding F8u: `reversals` multiplies two consecutive slopes; for doubles the product underflows to zero when
+    |d1*d2| < 2^-1074 although both slopes are non-zero"""
+    v = [Fraction(x) for x in vals]
+    u = [v[0]] if v else []
+    for x in v[1:]:
+        if x != u[-1]:
+            u.append(x)
+    d = [q - p for p, q in zip(u, u[1:])]
+    return any(abs(p * q) < Fraction(1, 2 ** 1074) for p, q in zip(d, d[1:]))
+
+
+def pick_affine(rng, s, forced=None):
+    """a seeded exact map a*x+b for the series `s`"""
+    if forced is not None:
+        a, b = forced
+        return a, b, [a * v + b for v in s]
+    r = rng.random()
+    if r < 0.70:
+        a = Fraction(rng.choice([1, 2, 4, -1, -2]), rng.choice([1, 2, 4]))
+    elif r < 0.85:
+        a = Fraction(rng.choice([3, -3, 5, 10, 1000, -1000, 7]), rng.choice([1, 1, 2, 8]))       # exact, not a power of two
+    else:
+        a = rng.choice([1, -1]) * Fraction(2) ** rng.choice([-200, -100, -40, 40, 100, 200])    # the same signal in other units
+    # all shifts exact in binary64; with a change of units the shift is given in the new unit
+    b = Fraction(rng.choice([rng.randint(-8, 8), rng.randint(-8, 8), 2 ** 31, -2 ** 35, 2 ** 40 + 3, 2 ** 50, 1 - 2 ** 50, 0,
+                             Fraction(1, 2), Fraction(-3, 4)]))
+    if abs(a) > 2 ** 20 or abs(a) < Fraction(1, 2 ** 20):
+        b = a * b
+    t = [a * v + b for v in s]
+    # the property speaks of transformations that are exact in floating point: series with very fine or very large
+    # values (near-ties, 2^+-80 magnitudes) cannot take every shift; fall back to a small shift, then to none
+    for b2 in (a * rng.randint(-8, 8) if not pow2(a) or abs(a) > 8 or abs(a) < Fraction(1, 8) else Fraction(rng.randint(-8, 8)),
+               Fraction(0)):
+        if exact64(t) and exact64(s):
+            break
+        b = Fraction(b2)
+        t = [a * v + b for v in s]
+    if not (exact64(t) and exact64(s)):
+        a, b = Fraction(rng.choice([1, -1])), Fraction(0)
+        t = [a * v for v in s]
+    return a, b, t
 
 
 def run(chk):
     from qats.signal import find_reversals
     from qats.fatigue.rainflow import reversals
     chk.extra["rule"] = RULE
-    chk.assumptions += ["shifts are integers, scale factors ±2^k, samples small dyadic rationals: every transformation and every "
-                        "difference/mean in the implementation is exact in binary floating point",
+    chk.assumptions += ["exact stream: shifts are integers / halves / multiples of the new unit, scale factors +-2^k (|k| <= 200) or "
+                        "small integers, samples small dyadic rationals: every transformation and every difference/mean in the "
+                        "implementation is exact in binary floating point",
+                        "generic stream: floats with inexact maps a*x+b; a case is evaluated only if every non-zero slope and every "
+                        "gap between two candidate ranges, scaled by |a|, exceeds 100 rounding errors eps*(|a|*max|x|+|b|) "
+                        "(= free of range ties); ranges and means are compared within 8 such errors, counts exactly",
                         "recount clauses are evaluated when at least two turning points exist (fewer points are outside "
                         "count_cycles' domain of >= 2 samples)"]
     chk.partial += ["find_reversals_spec_partial / recount_find_reversals_partial: proved for signals without plateaus; with "
                     "plateaus the finder's extra points are validated by search only (known finding F8b)"]
     chk.matchers["F8b"] = lambda f: f.get("clause") == "recount-find_reversals" and is_f8b_shape(f["input"]["series"])
+    chk.matchers["F8u"] = is_f8u
+    chk.matchers["F8w"] = is_f8w
     drv = core.Driver()
     rng = chk.rng
-    cases = [[Fraction(v) for v in c["series"]] for c in core.load_corpus("C03")]
-    corpus = set(tuple(c) for c in cases)
+    cases, forced, extra_sp = [], [], []
+    for c in core.load_corpus("C03"):
+        cases.append([frac(v) for v in c["series"]])
+        forced.append((frac(c["a"]), frac(c.get("b", "0"))) if "a" in c else None)
+        extra_sp.append(c.get("spelling"))
+    ncorpus = len(cases)
     import itertools
     for n in range(2, (6 if chk.quick else 7) + 1):
         for w in itertools.product([0, 1, 2, 3], repeat=n):
@@ -222,150 +918,246 @@ def run(chk):
     for seq, ep in c02.gen_cases(chk):
         if len(seq) >= 2 and len(seq) > 6:
             cases.append(seq)
+    forced += [None] * (len(cases) - ncorpus)
+    extra_sp += [None] * (len(cases) - ncorpus)
+
+    def rep(o, i, e, g, c, **kw):
+        chk.fail(o, i, e, g, clause=c, **kw)
     # ---- correspondence: find_reversals -------------------------------------------------------------------
     lines = ["sig.find_reversals " + " ".join(rat(v) for v in s) for s in cases]
     outs = drv.run(lines)
     for s, o in zip(cases, outs):
-        rev, idx = find_reversals(np.array([float(v) for v in s]))
-        got = ";".join("%d:%s" % (i, rat(Fraction(float(v)))) for i, v in zip(idx, rev))
+        try:
+            rev, idx = find_reversals(np.array([float(v) for v in s]))
+            got = "ok " + ";".join("%d:%s" % (i, rat(Fraction(float(v)))) for i, v in zip(idx, rev))
+        except Exception as e:
+            got = "err:" + type(e).__name__
         chk.count("sig.find_reversals")
-        if o != ("ok " + got).rstrip() and o.strip() != ("ok " + got).strip():
-            chk.disagree("sig.find_reversals", dict(series=[str(v) for v in s]), o, "ok " + got)
+        if o != got.rstrip() and o.strip() != got.strip():
+            chk.disagree("sig.find_reversals", dict(series=[str(v) for v in s]), o, got)
     # ---- correspondence of the counting itself on transformed inputs (model = C02's) --------------------------
     tlines, tmeta = [], []
-    for s in cases:
-        a = Fraction(rng.choice([1, 2, 4, -1, -2]), rng.choice([1, 2, 4]))
-        b = Fraction(rng.choice([rng.randint(-8, 8), rng.randint(-8, 8), 2 ** 31, -2 ** 35, 2 ** 40 + 3]))   # all exact in binary64
-        t = [a * v + b for v in s]
-        # the property speaks of transformations that are exact in floating point: series with very fine or very large
-        # values (near-ties, 2^+-80 magnitudes) cannot take every shift; fall back to a small shift, then to none
-        for b2 in (Fraction(rng.randint(-8, 8)), Fraction(0)):
-            if exact64(t + s):
-                break
-            b = b2
-            t = [a * v + b for v in s]
-        if not exact64(t + s):
-            a, b = Fraction(rng.choice([1, -1])), Fraction(0)
-            t = [a * v for v in s]
+    for s, fo in zip(cases, forced):
+        a, b, t = pick_affine(rng, s, fo)
         tlines.append("rf.count 0 " + " ".join(rat(v) for v in t))
         tmeta.append((s, a, b, t))
     touts = drv.run(tlines)
-    for (s, a, b, t), o in zip(tmeta, touts):
+    f8w = f8w_present()
+    later = []              # (refined series, endpoints) for the model correspondence of refined series
+    nplots = 0
+    for k, ((s, a, b, t), o) in enumerate(zip(tmeta, touts)):
         chk.count("rf.count(a*x+b)")
         mt = c02.parse_table(o)
-        try:
-            it = table(t)
-        except Exception as e:
-            it = "err:" + type(e).__name__
+        it = call(table, t)
         if isinstance(mt, str) or isinstance(it, str):
             if isinstance(mt, str) != isinstance(it, str):
                 chk.disagree("rf.count(a*x+b)", dict(series=[str(v) for v in t]), str(mt), str(it))
-            continue
-        if sorted(mt) != it:
+        elif sorted(mt) != it:
             chk.disagree("rf.count(a*x+b)", dict(series=[str(v) for v in t]), str(mt)[:300], str(it)[:300])
-        # ---- metamorphic oracles on the implementation ---------------------------------------------------
+        # ---- metamorphic oracles on the implementation (evaluated also when the tie is already broken) -------------
         inp = dict(series=[str(v) for v in s], a=str(a), b=str(b))
-        try:
-            base = table(s)
-        except Exception as e:
-            chk.fail("count_cycles must not raise", inp, "table", type(e).__name__, clause="base")
+        base = call(table, s)
+        if isinstance(base, str):
+            chk.fail("count_cycles must not raise", inp, "table", base, clause="base")
             continue
         if base:
             chk.nontriv(tuple(s))
         chk.dist("cycles=%s" % ("0" if not base else "1-3" if len(base) <= 3 else ">3"))
+        chk.dist("a:%s" % ("2^k,|k|<=2" if pow2(a) and Fraction(1, 4) <= abs(a) <= 4 else "2^k,|k|>=40" if pow2(a) else "not 2^k"))
         exp = sorted((abs(a) * r, a * m + b, c) for r, m, c in base)
         if it != exp:
             chk.fail("count(a*x+b): ranges |a|*r, means a*m+b, same counts", inp, [list(map(str, r)) for r in exp],
-                     [list(map(str, r)) for r in it], clause="affine")
+                     show(it), clause="affine")
+        incorpus = k < ncorpus
+        # audit extensions on the corpus, the short words and a seeded subset; the cheaper ones on every case in the quick tier and
+        # on a seeded 20 % of the many long generated cases in the thorough tier
+        sub = incorpus or len(s) <= 4 or rng.random() < (0.10 if chk.quick else 0.015)
+        more = chk.quick or sub or len(s) <= 6 or rng.random() < 0.2
+        bt, itt = (call(table, s, True), call(table, t, True)) if more else ([], [])   # the same clause with end points included
+        if isinstance(bt, str) or itt != transform(bt, a, b):
+            chk.fail("count(a*x+b, endpoints=True): ranges |a|*r, means a*m+b, same counts", dict(inp, endpoints=True),
+                     show(transform(bt, a, b)), show(itt), clause="affine")
         # repetition / in-between insertion
         t2 = []
         for i, v in enumerate(s):
             t2.append(v)
-            k = rng.random()
-            if k < 0.3:
+            kk = rng.random()
+            if kk < 0.3:
                 t2.append(v)                       # repeat
-            elif k < 0.6 and i + 1 < len(s):
+            elif kk < 0.6 and i + 1 < len(s):
                 w = s[i + 1]
                 lam = Fraction(rng.choice([0, 1, 2, 3, 4]), 4)
                 t2.append(v + lam * (w - v))       # weakly between (dyadic)
-        inp2 = dict(series=[str(v) for v in s], refined=[str(v) for v in t2])
-        for ep in (False, True):
-            try:
-                if table(t2, ep) != table(s, ep):
-                    chk.fail("inserting repeated / in-between samples changes nothing", dict(inp2, endpoints=ep),
-                             [list(map(str, r)) for r in table(s, ep)], [list(map(str, r)) for r in table(t2, ep)],
+        t3 = heavy_refine(rng, s)                  # several insertions per gap
+        for tr in (t2, t3) if more else (t2,):
+            inp2 = dict(series=[str(v) for v in s], refined=[str(v) for v in tr])
+            for ep in (False, True):
+                e0, g0 = call(table, s, ep), call(table, tr, ep)
+                if g0 != e0:
+                    chk.fail("inserting repeated / in-between samples changes nothing", dict(inp2, endpoints=ep), show(e0), show(g0),
                              clause="refine")
-            except Exception as e:
-                chk.fail("inserting repeated / in-between samples changes nothing", dict(inp2, endpoints=ep), "table",
-                         type(e).__name__, clause="refine")
         # recount from rainflow.reversals
         xs = [float(v) for v in s]
-        rv = list(reversals(xs))
+        rv = call(lambda: list(reversals(xs)))
+        if isinstance(rv, str):
+            chk.fail("reversals must not raise", inp, "turning points", rv, clause="recount-reversals")
+            rv = []
         if len(rv) >= 2:
-            r1 = table(rv, True)
+            r1 = call(table, rv, True)
             if r1 != base:
                 chk.fail("count_cycles(reversals(x), endpoints=True) == count_cycles(x)", inp,
-                         [list(map(str, r)) for r in base], [list(map(str, r)) for r in r1], clause="recount-reversals")
-        fr, _ = find_reversals(np.array(xs))
+                         [list(map(str, r)) for r in base], show(r1), clause="recount-reversals")
+        fr = call(lambda: find_reversals(np.array(xs))[0])
+        if isinstance(fr, str):
+            chk.fail("find_reversals must not raise", inp, "turning points", fr, clause="find_reversals-raises")
+            fr = []
         chk.dist("find_reversals:%s" % ("same" if list(fr) == rv else "extra-plateau-points"))
         if len(fr) >= 2 and len(rv) >= 2:
-            r2 = table(fr, True)
+            r2 = call(table, fr, True)
             if r2 != base:
                 chk.fail("count_cycles(find_reversals(x)[0], endpoints=True) == count_cycles(x)", inp,
-                         [list(map(str, r)) for r in base], [list(map(str, r)) for r in r2], clause="recount-find_reversals")
+                         [list(map(str, r)) for r in base], show(r2), clause="recount-find_reversals")
         # ---- the same clauses through the entry points that count cycles of a time series object --------------
         t0, dt = Fraction(rng.choice([0, 0, 10, -3])), Fraction(rng.choice([1, 1, 2, Fraction(1, 2), Fraction(1, 4)]))
         # thorough tier: every entry point on the short series, one seeded entry point on each of the many long generated ones (time)
-        for name in (list(ENTRIES) if chk.quick or len(s) <= 6 or tuple(s) in corpus else [rng.choice(list(ENTRIES))]):
+        names = list(ENTRIES) if chk.quick or len(s) <= 6 or incorpus else [rng.choice(list(ENTRIES))]
+        if sub:
+            names = names + [n for n in ENTRIES2 if incorpus or len(s) <= 3 or rng.random() < 0.5]
+            if (incorpus and len(s) <= 12) or (nplots < (30 if chk.quick else 150) and rng.random() < 0.03):
+                names = names + list(PLOTS)
+                nplots += 1
+        for name in names:
             chk.count("entry:" + name)
-            eb = entry_clauses(name, s, t0, dt, a, b, t2,
-                               lambda o, i, e, g, c: chk.fail(o, i, e, g, clause=c),
-                               skip=lambda: chk.dist("resample:not-exact-skipped"))
+            eb = entry_clauses(name, s, t0, dt, a, b, t2, rep, skip=lambda: chk.dist("entry:not-applicable-skipped"),
+                               factors=(2, 4) if sub else (2,))
             # tie of the entry point to count_cycles on the raw samples (an empty table cannot be unpacked by the GUI helper)
-            if eb != project(name, base) and not (isinstance(eb, str) and not base and name.startswith("app.")):
+            if eb is not None and eb != project(name, base) and not (isinstance(eb, str) and not base and name in EMPTY_RAISES):
                 chk.disagree("entry==count_cycles", dict(series=[str(v) for v in s], entry=name, t0=str(t0), dt=str(dt)),
                              str(show(project(name, base)))[:300], str(show(eb))[:300])
+        if sub:
+            sps = [rng.choice(SPELLINGS), rng.choice(ARRAY_SPELLINGS)] if not incorpus else list(SPELLINGS)
+            if extra_sp[k]:
+                sps = [extra_sp[k]] + sps
+            for sp in sps:
+                how = rng.choice(HOWS)
+                chk.count("spelling:" + sp)
+                spelling_clauses(sp, how, s, a, b, rng.choice([t2, t3]), rep, skip_wrap=f8w and sp != extra_sp[k])
+                if f8w and sp != extra_sp[k] and diff_wraps(s, sp):
+                    chk.dist("find_reversals on an integer array with a wrapping step: skipped while F8w is present")
+            chk.count("array-history")
+            array_history(s, a, b, rep)
+            chk.count("ts-history")
+            ts_history(s, t0, dt, a, b, rng.choice(["assign", "overwrite"]), rep)
+            later += [(s, tr) for tr in (t2, t3) if exact64(tr)]
         if len(chk.samples) < 4 and base and len(s) > 5:
             chk.sample(dict(series=[str(v) for v in s], a=str(a), b=str(b), refined=[str(v) for v in t2]))
+    # ---- model correspondence of refined series, end points included (the refinement clause is tied to the model too) -------
+    louts = drv.run(["rf.count 1 " + " ".join(rat(v) for v in tr) for _, tr in later])
+    for (s, tr), o in zip(later, louts):
+        chk.count("rf.count(refined, endpoints)")
+        mt, it = c02.parse_table(o), call(table, tr, True)
+        if isinstance(mt, str) or isinstance(it, str):
+            if isinstance(mt, str) != isinstance(it, str):
+                chk.disagree("rf.count(refined, endpoints)", dict(series=[str(v) for v in tr]), str(mt), str(it))
+        elif sorted(mt) != it:
+            chk.disagree("rf.count(refined, endpoints)", dict(series=[str(v) for v in tr]), str(mt)[:300], str(it)[:300])
+    # ---- inexact unit conversions on generic float series free of range ties ----------------------------------------------
+    for _ in range(600 if chk.quick else 3000):
+        xs, a, b, t2 = gen_generic(rng)
+        chk.count("generic a*x+b")
+        generic_clauses(xs, a, b, rng.choice(["ndarray", "list"]), rng.random() < 0.3, t2, rep,
+                        skip=lambda: chk.dist("generic:near-tie-skipped"))
+        chk.dist("generic:cases")
+
+
+AFFINE_CLAUSES = ("affine", "spelling-affine", "spelling-identity", "entry-affine", "entry-container", "array-history", "ts-history")
+
+
+def is_f8u(f):
+    """narrow matcher of finding F8u (slope product underflows): the transformed series a*x+b of the failing affine clause has two
+    consecutive non-zero slopes whose product underflows to zero in binary64, and the same map at a harmless magnitude (scaled by a power of two into the unit range, float64) transforms the count correctly"""
+    try:
+        inp = f["input"]
+        if "series" not in inp or inp.get("kind") == "generic":
+            return False
+        if str(f.get("oracle", "")).startswith("correspondence:rf.count"):
+            return underflow_shape([frac(v) for v in inp["series"]])
+        if f.get("clause") not in AFFINE_CLAUSES:
+            return False
+        s = [frac(v) for v in inp["series"]]
+        a, b = frac(inp.get("a", "1")), frac(inp.get("b", "0"))
+        t = [a * v + b for v in s]
+        if inp.get("spelling") in INT_DTYPES or not underflow_shape(t):
+            return False
+        top = max(abs(v) for v in t)
+        k = 0
+        while top * Fraction(2) ** k < 1:
+            k += 1
+        a2, b2 = a * Fraction(2) ** k, b * Fraction(2) ** k
+        return table([a2 * v + b2 for v in s]) == transform(table(s), a2, b2)
+    except Exception:
+        return False
 
 
 def replay(rp):
     from qats.signal import find_reversals
     from qats.fatigue.rainflow import reversals
     inp = rp["input"]
-    s = [Fraction(v) for v in inp["series"]]
-    if "entry" in inp:
-        bad = []
-        a, b = Fraction(inp.get("a", "1")), Fraction(inp.get("b", "0"))
-        t2 = [Fraction(v) for v in inp["refined"]] if "refined" in inp else None
+    bad = []
 
-        def report(o, i, e, g, c):
-            bad.append(c)
-            print("FAILS: %s\n  input    %s\n  expected %s\n  observed %s" % (o, i, e, g))
-        eb = entry_clauses(inp["entry"], s, Fraction(inp["t0"]), Fraction(inp["dt"]), a, b, t2, report)
-        print("entry point: %s\n  %s\ncount_cycles on the raw samples:\n  %s" % (inp["entry"], show(eb), show(project(inp["entry"], table(s)))))
+    def report(o, i, e, g, c, **kw):
+        bad.append(c)
+        print("FAILS: %s\n  input    %s\n  expected %s\n  observed %s" % (o, i, e, g))
+
+    def done():
         print("replay: %d failing clause(s)" % len(bad))
         return 1 if bad else 0
-    base = table(s)
-    bad = 0
+    kind = inp.get("kind")
+    if kind == "generic":
+        generic_clauses([float.fromhex(v) for v in inp["series"]], float.fromhex(inp["a"]), float.fromhex(inp["b"]),
+                        inp["spelling"], inp["endpoints"], [float.fromhex(v) for v in inp["refined"]], report,
+                        lambda: print("skipped: not free of range ties at this tolerance"))
+        return done()
+    s = [frac(v) for v in inp["series"]]
+    a, b = frac(inp.get("a", "1")), frac(inp.get("b", "0"))
+    t2 = [frac(v) for v in inp["refined"]] if "refined" in inp else None
+    if kind == "spelling":
+        spelling_clauses(inp["spelling"], inp.get("endpoints_as", "kw"), s, a, b, t2, report)
+        return done()
+    if kind == "array-history":
+        array_history(s, a, b, report)
+        return done()
+    if kind == "ts-history":
+        ts_history(s, frac(inp["t0"]), frac(inp["dt"]), a, b, inp["way"], report)
+        return done()
+    if "entry" in inp:
+        eb = entry_clauses(inp["entry"], s, frac(inp["t0"]), frac(inp["dt"]), a, b, t2, report)
+        print("entry point: %s\n  %s\ncount_cycles on the raw samples:\n  %s" % (inp["entry"], show(eb),
+                                                                                 show(project(inp["entry"], call(table, s)))))
+        return done()
+    base = call(table, s)
+    if isinstance(base, str):
+        report("count_cycles must not raise", inp, "table", base, "base")
+        return done()
     if "a" in inp:
-        a, b = Fraction(inp["a"]), Fraction(inp["b"])
-        if table([a * v + b for v in s]) != sorted((abs(a) * r, a * m + b, c) for r, m, c in base):
-            print("FAILS: affine clause")
-            bad += 1
+        for ep in (False, True):
+            got, exp = call(table, [a * v + b for v in s], ep), transform(call(table, s, ep), a, b)
+            if got != exp:
+                report("affine clause (endpoints=%s)" % ep, inp, show(exp), show(got), "affine")
     if "refined" in inp:
         ep = inp.get("endpoints", False)
-        if table([Fraction(v) for v in inp["refined"]], ep) != table(s, ep):
-            print("FAILS: refinement clause")
-            bad += 1
+        e0, g0 = call(table, s, ep), call(table, t2, ep)
+        if g0 != e0:
+            report("refinement clause", inp, show(e0), show(g0), "refine")
     xs = [float(v) for v in s]
-    rv = list(reversals(xs))
-    fr, _ = find_reversals(np.array(xs))
-    if len(rv) >= 2 and table(rv, True) != base:
-        print("FAILS: recount from reversals")
-        bad += 1
-    if len(rv) >= 2 and len(fr) >= 2 and table(fr, True) != base:
-        print("FAILS: recount from find_reversals", "(F8b shape)" if is_f8b_shape(inp["series"]) else "")
-        bad += 1
-    print("replay: %d failing clause(s)" % bad)
-    return 1 if bad else 0
+    rv = call(lambda: list(reversals(xs)))
+    fr = call(lambda: list(find_reversals(np.array(xs))[0]))
+    if isinstance(rv, str) or isinstance(fr, str):
+        report("reversals / find_reversals must not raise", inp, "turning points", str((rv, fr)), "raises")
+        return done()
+    if len(rv) >= 2 and call(table, rv, True) != base:
+        report("recount from reversals", inp, show(base), show(call(table, rv, True)), "recount-reversals")
+    if len(rv) >= 2 and len(fr) >= 2 and call(table, fr, True) != base:
+        report("recount from find_reversals%s" % (" (F8b shape)" if is_f8b_shape(inp["series"]) else ""), inp, show(base),
+               show(call(table, fr, True)), "recount-find_reversals")
+    return done()
